@@ -1235,6 +1235,8 @@ def _ctor_ops(stmts: List[ast.stmt]) -> List[str]:
                     copy = [ast.unparse(k.value) for k in n.keywords if k.arg == "copy"]
                     if ast.unparse(n.args[0]) != "self.data":
                         raise Unsupported(f"line {n.lineno}: nan_to_num of {ast.unparse(n.args[0])}")
+                    if copy not in ([], ["True"], ["False"]):
+                        raise Unsupported(f"line {n.lineno}: nan_to_num copy= is not a literal ({copy[0]})")
                     inplace = (copy == ["False"])
                     ops.append((n.lineno, "nanToNumInPlace" if inplace else "nanToNumCopy"))
                 elif fn in ("np.copy", "np.array") or fn.endswith(".copy"):
